@@ -174,10 +174,9 @@ def compare_lockstep(ctx, lines, posts):
         redo.append((case, i, c, pre, x, post, q, ml))
     for (case, i, c, pre, x, post, q, ml) in redo:
         # a decision of this step within rounding distance of its threshold may legitimately fall either way
-        mg = []
-        if len(pre[1]) == len(q):
-            p2lib.paper_step(dict(p=q, N=pre[0], q=list(pre[1]), n=[int(t) + 1 for t in pre[2]]), x, margins=mg)
-        if mg and min(mg) < 1e-9:
+        n_, h_, pos_ = p2lib.parse_state(ml)
+        ranks_differ = not (len(pos_) == len(post[2]) and all(a == b for a, b in zip(pos_, post[2])))
+        if len(pre[1]) == len(q) and p2lib.excusable(ranks_differ, pre, q, x):
             ctx.count('lockstep_ambiguous_under_rounding')
         else:
             ctx.disagree('p2-lockstep-model-correspondence', small(case), dict(step=i, comp=c, pre=pre, x=x, post=post),
